@@ -3,7 +3,7 @@
 From Coq Require Import NArith List Lia ZArith Bool.
 Require Import SDS.Model.Mach SDS.Model.Bits SDS.Model.Raw SDS.Model.IntVec SDS.Model.BitVec SDS.Model.Sparse.
 Require Import SDS.Spec.BitSeq SDS.Spec.ValSeq SDS.Proofs.BitsProof SDS.Proofs.BVCommon SDS.Proofs.SparseSeq.
-Require Import SDS.Proofs.SparseProof SDS.Proofs.SparseBuild SDS.Proofs.SparseLow SDS.Proofs.SparseIter SDS.gen.Consts.
+Require Import SDS.Proofs.SparseProof SDS.Proofs.SparseBuild SDS.Proofs.SparseLow SDS.Proofs.SparseIter SDS.Proofs.SparseZero SDS.gen.Consts.
 Import ListNotations.
 Open Scope N_scope.
 Require Import ZifyBool ZifyN ZifyNat.
@@ -15,7 +15,8 @@ Definition present_queries_ok (sp : selpath) (md : mode) (sv : sparse) (n : N) (
   (forall i, sv_rank sp md sv i = Ok (vs_rank Vs i)) /\
   (forall r, sv_select sp md sv r = Ok (vs_select Vs r)) /\
   (forall v, it_first md sv (sv_predecessor sp md sv v) = Ok (hd_error (vs_pred Vs v))) /\
-  (forall v, it_first md sv (sv_successor sp md sv v) = Ok (hd_error (vs_succ Vs v))).
+  (forall v, it_first md sv (sv_successor sp md sv v) = Ok (hd_error (vs_succ Vs v))) /\
+  sv_is_multiset md sv = Ok (has_dup Vs).
 
 Lemma sv_ok_present sp md sv n w Vs H : sv_ok sp md sv n w Vs H -> present_queries_ok sp md sv n Vs.
 Proof.
@@ -27,7 +28,8 @@ Proof.
     split; [intros i; apply (q_rank_ok sp md sv n w Vs H Hok i)|].
     split; [intros r; apply (q_select sp md sv n w Vs H Hok r)|].
     split; [intros v; apply (q_predecessor_first sp md sv n w Vs H Hok v)|].
-    intros v; apply (q_successor_first sp md sv n w Vs H Hok v).
+    split; [intros v; apply (q_successor_first sp md sv n w Vs H Hok v)|].
+    apply (q_is_multiset sp md sv n w Vs H Hok).
 Qed.
 
 (* the set-bit iterators (one_iter, and the iterators returned by successor / predecessor / select_iter) under ANY
@@ -67,6 +69,9 @@ Qed.
 (* queries about unset bits, for sets *)
 Definition zero_queries_ok (sp : selpath) (md : mode) (sv : sparse) (n : N) (P : list N) : Prop :=
   (forall i, sv_rank_zero sp md sv i = Ok (i - vs_rank P i)) /\
+  (forall r, sv_select_zero sp md sv r = Ok (vs_select_zero P n r)) /\
+  (forall k, (let* z := sv_zero_iter md sv in zi_take md sv k z) = Ok (vs_zeros_from P n 0 k)) /\
+  (forall r k, (let* z := sv_select_zero_iter sp md sv r in zi_take md sv k z) = Ok (vs_zeros_from P n r k)) /\
   (forall r, n - lenN P <= r -> sv_select_zero sp md sv r = Ok None) /\
   (forall r, r < n - lenN P -> exists z, sv_select_zero sp md sv r = Ok (Some z) /\
      z < n /\ vs_get P z = false /\ vs_rank P z + r = z).
@@ -75,6 +80,18 @@ Lemma sv_ok_zero sp md sv n w P H : sv_ok sp md sv n w P H -> sorted_lt P -> zer
 Proof.
   intros Hok Hs. unfold zero_queries_ok.
   split; [intros i; apply (q_rank_zero_ok sp md sv n w P H Hok i Hs)|].
+  split; [intros r; apply (q_select_zero_exec sp md sv n w P H Hok Hs r)|].
+  split.
+  { intros k. destruct (zi_zero_iter_ok sp md sv n w P H Hok Hs) as [zi [Hz Hinv]]. rewrite Hz. cbn [bind].
+    apply (zi_take_ok sp md sv n w P H Hok Hs k zi 0 0 0 Hinv). }
+  split.
+  { intros r k. destruct (N.lt_ge_cases r (n - lenN P)) as [Hr|Hr].
+    - destruct (zi_select_zero_iter_ok sp md sv n w P H Hok Hs r Hr) as [zi [z [j [Hz Hinv]]]]. rewrite Hz. cbn [bind].
+      apply (zi_take_ok sp md sv n w P H Hok Hs k zi r z j Hinv).
+    - unfold sv_select_zero_iter. rewrite (q_count_zeros sp md sv n w P H Hok Hs).
+      replace (n - lenN P <=? r) with true by lia. cbn [bind]. rewrite zi_empty_take.
+      destruct k; [reflexivity|]. cbn [vs_zeros_from]. unfold vs_select_zero.
+      rewrite (vs_select_zero_from_none P 0 n r Hs); [reflexivity|intros; lia|apply Hok|lia|lia]. }
   split; intros r Hr; destruct (q_select_zero_ok sp md sv n w P H Hok Hs r) as [H1 H2]; auto.
 Qed.
 
